@@ -116,7 +116,7 @@ def _model_job(a):
             # iterative solvers stop at a relative residual of 1e-9; with the conditioning of the coupled system
             # (1e9 constraint weights in the FEM) that bounds the solution error only to about 1e-5
             rt, ft = (1e-7, 1e-9) if lin == "Direct" else (2e-4, 2e-5)
-            if e > rt * max(float(np.max(np.abs(v))), 1e-300) + ft * S:
+            if not (e <= rt * max(float(np.max(np.abs(v))), 1e-300) + ft * S):
                 bad.append(("totals:%s_%s_vs_%s_%s" % (mode, lin, ref[1][0], ref[1][1]), {"block": kk, "err": e, "scale": float(np.max(np.abs(v)))}))
                 break
     if ref is None:
@@ -172,7 +172,7 @@ def _model_job(a):
             for kk in J2:
                 S = max(float(np.max(np.abs(np.asarray(w)))) for k2, w in J2.items() if k2[0] == kk[0])
                 e = float(np.max(np.abs(np.asarray(J1[kk]) - np.asarray(J2[kk]))))
-                if e > 1e-7 * max(float(np.max(np.abs(np.asarray(J2[kk])))), 1e-300) + 1e-9 * S:
+                if not (e <= 1e-7 * max(float(np.max(np.abs(np.asarray(J2[kk])))), 1e-300) + 1e-9 * S):
                     bad.append(("totals:second_point_vs_fresh:%s:%s" % (kk[0].split(".")[-1], kk[1].split(".")[-1]), {"of": kk[0], "wrt": kk[1], "err": e, "scale": float(np.max(np.abs(np.asarray(J2[kk]))))}))
                     break
     except om.AnalysisError:
